@@ -9,6 +9,7 @@ import (
 	"sort"
 	"time"
 
+	"github.com/sheerbytes/sheerbytes/internal/transfer"
 	"github.com/sheerbytes/sheerbytes/pkg/protocol"
 )
 
@@ -65,3 +66,9 @@ func VerifComputeParallelBudget(fileCount, requested, conns int, striping bool) 
 }
 
 func VerifBuildPathResolver(paths []string) (func(string) string, error) { return buildPathResolver(paths) }
+
+func VerifAuthenticateTransport(ctx context.Context, conn transfer.Conn, joinCode string, role byte) error {
+	return authenticateTransport(ctx, conn, joinCode, role)
+}
+
+const VerifAuthLabel = authLabel
